@@ -78,6 +78,12 @@ pub fn parse_patch_date(date_str: &str) -> Result<(i64, i64), ParsePatchDateErro
         ));
     }
 
+    // The sign of the "[+-]HH" group applies to the minutes as well: "-0330" is -(3h30m).
+    let offset_minutes = if m.get(2).unwrap().as_str().starts_with('-') {
+        -offset_minutes
+    } else {
+        offset_minutes
+    };
     let offset = offset_hours * 3600 + offset_minutes * 60;
     // Parse secs_str with a time format %Y-%m-%d %H:%M:%S using the chrono crate
     let dt = chrono::NaiveDateTime::parse_from_str(secs_str, "%Y-%m-%d %H:%M:%S")
